@@ -52,6 +52,11 @@ def fields_of_spec():
 
 def main(ctx):
     from harness.drivers import hostile as H
+    if ctx.replay_path:
+        from checks import replay_mine
+        H.FIELDS.update(fields_of_spec())
+        ctx.level = 'exploration'
+        return replay_mine.c10(ctx, H)
     ctx.level = 'exploration'
     quick = ctx.tier == 'quick'
     rnd = random.Random(ctx.seed)
